@@ -36,6 +36,9 @@ def _mk_table():
     # ---- array level ----
     reg("sdof.response_series", "sdof.response_series",
         lambda G: ([G.rec(), G.dt(), G.arr_periods(), G.xi()], {}))
+    for f in ("response_series", "true_response_spectra", "pseudo_response_spectra", "nigam_and_jennings_response"):
+        # the same functions on a problem that is large in both directions (thresholds on len(periods) * len(record))
+        reg("sdof.%s:large" % f, "sdof." + f, (lambda G: G.large_response_args()))
     reg("sdof.pseudo_response_spectra", "sdof.pseudo_response_spectra",
         lambda G: ([G.rec(nd_only=True), G.dt(), G.arr_periods(), G.xi()], {}))
     reg("sdof.true_response_spectra", "sdof.true_response_spectra",
@@ -55,12 +58,12 @@ def _mk_table():
     reg("im.calc_peak", "im.calc_peak", lambda G: ([G.rec()], {}))
     reg("im.calculate_peak", "im.calculate_peak", lambda G: ([G.rec()], {}))
     reg("im.calc_n_cyc_array_w_power_law", "im.calc_n_cyc_array_w_power_law",
-        lambda G: ([G.rec(nd_only=True), G.rng.choice([0.5, 1.0, 2.0]), G.rng.choice([0.2, 0.34, 0.5])],
-                   G.some({"cut_off": 0.05})))
+        lambda G: ([G.rec(nd_only=True), G.rng.choice([0.5, 1.0, 2.0]), G.rng.choice([0.2, 0.34, 0.5, 0.04, 0.02, 1.5])],
+                   G.some({"cut_off": G.rng.choice([0.05, 0.5, 0.0])})))
     reg("im.calc_n_cyc_array_w_power_law:b_array", "im.calc_n_cyc_array_w_power_law",
         lambda G: ([G.rec(nd_only=True), 1.0, G.arr([0.2, 0.34, 0.5])], {}))
     reg("im.calc_cyc_amp_array_w_power_law", "im.calc_cyc_amp_array_w_power_law",
-        lambda G: ([G.rec(nd_only=True)], {"n_cyc": G.rng.choice([5, 15]), "b": G.rng.choice([0.25, 0.34])}))
+        lambda G: ([G.rec(nd_only=True)], {"n_cyc": G.rng.choice([5, 15]), "b": G.rng.choice([0.25, 0.34, 0.03, 2.0])}))
     reg("im.calc_cyc_amp_array_w_power_law:b_array", "im.calc_cyc_amp_array_w_power_law",
         lambda G: ([G.rec(nd_only=True)], {"n_cyc": 15, "b": G.arr([0.25, 0.34])}))
     reg("im.calc_cyc_amp_gm_arrays_w_power_law", "im.calc_cyc_amp_gm_arrays_w_power_law",
@@ -211,12 +214,13 @@ class World(object):
                                                       "K2": {"armed": 0, "fired": 0, "recovered": 0},
                                                       "K4": {"armed": 0, "fired": 0, "recovered": 0}},
                       "k2_sites": {},
-                      "own_cells": set(), "pure_cells": set(), "calls": {}, "calls_ok": {}, "call_outcomes": {}, "kindseq": set(),
+                      "own_cells": set(), "pure_cells": set(), "calls": {}, "calls_ok": {}, "call_outcomes": {}, "aliased_results": {}, "kindseq": set(),
                       "nontrivial": 0, "outcomes": {}, "runs": 0, "buffer_checks": 0, "object_checks": 0,
                       "repeat_checks": 0, "later_repeat_checks": 0, "run_class": {}}
         self.kinds = []
         self.hit = False
         self.tmpdir = None
+        self.np_state = None
         self.call_memo = {}     # (call record, digests of everything it refers to) -> first outcome
         self.call_log = []      # call records issued so far (for deliberate re-issue later in the history)
 
@@ -227,6 +231,17 @@ def _has_signal(v):
     if isinstance(v, (list, tuple)):
         return any(_has_signal(x) for x in v)
     return False
+
+
+def _aliases(v, inputs, acc):
+    """Arrays inside a returned value that share memory with an input."""
+    if isinstance(v, np.ndarray):
+        if v.size and any(np.shares_memory(v, i) for i in inputs):
+            acc.append(v)
+    elif isinstance(v, (list, tuple)):
+        for x in v:
+            _aliases(x, inputs, acc)
+    return acc
 
 
 def _scribble(v, inputs):
@@ -614,6 +629,18 @@ class C05(Profile):
             agg_add(st["outcomes"], out.exc)
         self._coverage(world, op, out, kind)
         viol = self._check(world, op, out, step, kind, fkind)
+        if viol is None:
+            # I6: no operation may leave process-wide NumPy state changed (error handling, print options): a later
+            # call with the same arguments would behave differently
+            now = (sorted(np.geterr().items()), codec.dumps({k: (v if isinstance(v, (int, float, str, bool, type(None))) else repr(v))
+                                                           for k, v in np.get_printoptions().items()}))
+            if world.np_state is None:
+                world.np_state = now
+            elif now != world.np_state:
+                viol = {"property": "C05", "step": step, "after": kind, "fault": fkind, "invariant": "I6:process-state-unchanged",
+                        "cls": None, "victim": "numpy", "victim_kind": "process-state",
+                        "what": "%s left NumPy's process-wide state changed: %s" % (kind, "error handling " + repr(dict(np.geterr()))
+                                                                                  if now[0] != world.np_state[0] else "print options")}
         ev = out.digest() + "/" + codec.digest([np.asarray(o.values) if not isinstance(o.values, np.ndarray) else o.values
                                                 for _, o in sorted(world.objs.items())])
         return ev, viol
@@ -660,6 +687,9 @@ class C05(Profile):
             if keep is not None:
                 inputs = list(eph) + [b for b in world.bufs.values() if isinstance(b, np.ndarray)] + \
                     [o.values for o in world.objs.values() if isinstance(o.values, np.ndarray)]
+                al = _aliases(out1.value, inputs, [])
+                if al:
+                    agg_add(st["aliased_results"], op["f"])
                 n_scr = _scribble(out1.value, inputs)
                 if n_scr:
                     st["faults"]["K4"]["armed"] += n_scr
@@ -870,6 +900,7 @@ class C05(Profile):
                               "functions_never_called": missing, "cells_hit": len(pure),
                               "definition": "function | argument kind"},
             "analysis_calls": sum(fns_called.values()),
+            "functions_whose_result_shared_memory_with_an_input": agg.get("aliased_results", {}),
             "functions_that_never_returned_normally": sorted(set(fns_called) - set(agg.get("calls_ok", {}))),
             "calls_per_function_min": min(fns_called.values()) if fns_called else 0,
             "analysis_call_outcomes": agg.get("call_outcomes", {}),
@@ -905,6 +936,7 @@ class Gen(object):
         self.cur_dt = 0.01
         self.c04gen = c04mod.OpGen(None, rng, dict(config, seed=config.get("seed", 0)))
         self.started = False
+        self.accumulators = {}
         self.last_call = None
         self.sibling_call = None
         self.force_rec = None
@@ -1141,6 +1173,15 @@ class Gen(object):
         self.no += 1
         cls = cls or rng.choice(["AccSignal", "AccSignal", "Signal"])
         op = {"op": "new", "p": name, "cls": cls, "src": self._src(world), "dt": self._dt(), "kw": {}}
+        objs = sorted(world.objs)
+        if objs and rng.random() < 0.2:
+            # an all-zero accumulator shaped like an existing signal (to be filled with add_signal)
+            q = rng.choice(objs)
+            n = len(world.objs[q].values)
+            if 1 <= n <= 512:
+                op["src"] = {"arr": nd([0.0] * n)}
+                op["dt"] = float(world.objs[q].dt)
+                self.accumulators[name] = q
         if rng.random() < 0.7:
             op["kw"]["smooth_fa_freqs"] = nd(gen_freqs(rng))
         if cls == "AccSignal" and rng.random() < 0.8:
@@ -1196,12 +1237,15 @@ class Gen(object):
         if not objs:
             return None
         # prefer objects that received a caller buffer or another object's array
-        pri = [o for o in objs if world.origin.get(o, (None, None, None))[1] in ("reset_values", "time_match")
+        pri = [o for o in objs if o in self.accumulators or world.origin.get(o, (None, None, None))[1] in ("reset_values", "time_match")
                or world.origin.get(o, (None, None, None))[0] == "object"]
         p = rng.choice(pri) if (pri and rng.random() < 0.6) else rng.choice(objs)
         obj = world.objs[p]
         acc = _cls_name(obj) == "AccSignal"
         m = None
+        if p in self.accumulators and self.accumulators[p] in world.objs and rng.random() < 0.6:
+            q = self.accumulators.pop(p)
+            return {"op": "mut", "p": p, "m": "add_signal", "a": [], "kw": {}, "other": q}
         if inplace:
             pool = INPLACE if acc else ["running_average"]
             m = rng.choice(pool)
@@ -1539,6 +1583,19 @@ class Gen(object):
             kw["down_red"] = 0.8
         tts = {"arr": nd(tt)} if (k > 1 or rng.random() < 0.7) else tt[0]
         return [{"obj": self.cur_obj}, tts], kw
+
+    def large_response_args(self):
+        rng = self.rng
+        if rng.random() > 0.12:           # expensive: only now and then
+            raise _Skip()
+        n = rng.choice([2600, 4100, 5200])
+        k = rng.choice([100, 128])
+        rec = gen_record(rng, 64, kind="sines")
+        vals = [rec[i % 64] * (1.0 + 0.001 * (i // 64)) for i in range(n)]
+        per = [round(0.05 + 2.95 * i / (k - 1), 6) for i in range(k)]
+        if rng.random() < 0.3:
+            per[0] = 0.0
+        return [{"arr": nd(vals)}, 0.01, {"arr": nd(per)}, 0.05], {}
 
     def trim_args(self):
         rng = self.rng
